@@ -24,7 +24,7 @@ claim("C16", "exploration",
   "DESIGN.md §5 C16")
 
 claim("C17", "exploration",
-  "Seeded simulation of WASI histories against a pre-populated tree mounted read-only three ways (WithReadOnlyDirMount, WithFSMount(os.DirFS), WithFSMount(MapFS)): every mutating call and path_open over the full cross product of open flags, descriptor flags and rights; invariant after every single call: a recursive snapshot (names, types, modes, sizes, SHA-256, mtime, ctime, link count) equals the initial one; liveness half: plain read-only opens, reads, readdir and stat keep returning the model's content. Class cli-mount: the command-line tool built from the tree under test runs a guest attempting every mutation under each documented read-only spelling of -mount, same snapshot invariant. Sampling, not proof.",
+  "Seeded simulation of WASI histories against a pre-populated tree mounted read-only three ways (WithReadOnlyDirMount, WithFSMount(os.DirFS), WithFSMount(MapFS)): every mutating call and path_open over the full cross product of open flags, descriptor flags and rights; invariant after every single call: a recursive snapshot (names, types, modes, sizes, SHA-256, mtime, ctime, link count) equals the initial one; liveness half: plain read-only opens, reads, readdir and stat keep returning the model's content. Class multi-mount: configurations of several mounts derived in tape-chosen ways (replaced, withdrawn), attempts through every pre-open. Class cli-mount: the command-line tool built from the tree under test runs a guest attempting every mutation under each documented read-only spelling of -mount, same snapshot invariant. Sampling, not proof.",
   "Trusted: the snapshot function and the host FS reporting ctime/mtime faithfully; atime excluded; errno of refused mutations is not judged.",
   "deterministic simulation: tape-driven adversarial WASI histories over read-only mounts, snapshot invariant after every step, model-checked reads, tape shrinking + replay",
   "DESIGN.md §5 C17")
@@ -42,7 +42,7 @@ claim("C20", "exploration",
 
 claim("C07", "exploration",
   "One scenario per run: a non-terminating guest of a tape-chosen cycle shape (10 shapes incl. every tail-call form, indirect calls, loops entered from host callbacks; with padding) x yielding/pure spin x cause (cancel, deadline, close from another goroutine, Runtime.Close) x moment (already done, k-th host callback, second goroutine), both engines. Oracle: the call returns (watchdog: a hang is the violation), exit error with the cause's code, module closed, and for yielding guests a plan-derived bound on host callbacks after the closed flag is visible. Sampling over shapes and moments, not proof that every cycle has a check.",
-  "Trusted: the shape catalogue covers the ways to form a cycle; for pure spins on the compiler the cancellation instant is not controlled (oracle is moment-independent). Watchdog 30 s is >10^4 x the healthy latency. Known findings recognised by signature: a WASI call under a concurrent Close dereferences the released system context (cycles that call sched_yield, causes close-from-goroutine / runtime-close); a guest parked in memory.atomic.wait is not woken (class parked, the call runs in an abandoned goroutine); recursion without loops is not interrupted (class recursion, sacrificial child under the watchdog).",
+  "Trusted: the shape catalogue covers the ways to form a cycle; for pure spins on the compiler the cancellation instant is not controlled (oracle is moment-independent). Watchdog 30 s is >10^4 x the healthy latency. Known findings recognised by signature: a WASI call under a concurrent Close dereferences the released system context (cycles that call sched_yield, causes close-from-goroutine / runtime-close); a guest parked in memory.atomic.wait is not woken (class parked, the call runs in an abandoned goroutine); recursion without loops is not interrupted (class recursion, sacrificial child under the watchdog). Class start-function: a guest spinning in its start-section function (inside InstantiateModule).",
   "deterministic simulation: simulator-owned cancellation moment and cause over cycle-shape guests, liveness by supervisor watchdog and step bound, replay of the scenario tape",
   "DESIGN.md §5 C07")
 
@@ -59,19 +59,19 @@ claim("C18", "exploration",
   "DESIGN.md §5 C18")
 
 claim("C13", "fault_enumeration",
-  "Per tape-generated module: determinism of the cache entry across fresh runtimes; then EVERY crash point of the add operation is enumerated on an in-memory disk (before each syscall, inside each write after k bytes) under two persistence models - process death and power loss (data durable only up to the last fsync, unsynced tail dropped or zero-filled, each directory operation persisted or lost) - and a restarted runtime must find nothing or a byte-identical entry under the final name, compile, and execute correctly; every truncation length and foreign-version entries must be reported or recompiled, never executed; read faults; two concurrent writers under a seeded baton scheduler; two runtimes sharing one warm cache object with a PCT change point among the engine's yield sites. Crash points are exhaustive per module; the module population is sampled.",
+  "Per tape-generated module: determinism of the cache entry across fresh runtimes; then EVERY crash point of the add operation is enumerated on an in-memory disk (before each syscall, inside each write after k bytes) under two persistence models - process death and power loss (data durable only up to the last fsync, unsynced tail dropped or zero-filled, each directory operation persisted or lost) - and a restarted runtime must find nothing or a byte-identical entry under the final name, compile, and execute correctly; every truncation length and foreign-version entries must be reported or recompiled, never executed; read faults; two concurrent writers under a seeded baton scheduler; two runtimes sharing one warm cache object with a PCT change point among the engine's yield sites; entries of more than a megabyte (class large-entry). Crash points are exhaustive per module; the module population is sampled.",
   "Trusted: the sim-disk persistence model (conservative POSIX, not a specific file system), the go/ast instrumenter that substitutes package os in internal/filecache/file_cache.go and cache.go of a scratch copy, the plan model.",
   "deterministic simulation: simulated disk (volatile/durable layers) with enumerated crash points, power-loss models, truncation sweep, read faults, transient write errors (ENOSPC/EIO once), baton-scheduled concurrent writers of the same or different modules",
   "DESIGN.md §5 C13")
 
 claim("C10", "exploration",
   "Seeded schedule search over real goroutines under a baton scheduler on an instrumented scratch copy (statement-level yields in runtime.go, builder.go and the store files; scheduler-aware sync/atomic shims): 2-4 clients x 2-6 operations over a small name set, a fifth of the instantiations failing in a start function after the instance was registered; the recorded invoke/return history plus a sequential probe is checked with porcupine against the atomic-registry specification; additionally no operation may panic, no deadlock, and close notifications fire exactly once for closed modules. Policies: uniform, PCT-style, sequential. Sampling of schedules, not exhaustive.",
-  "Trusted: the go/ast instrumenter and shims (forwarding outside the simulation), the registry specification (about 120 lines), porcupine v1.3.0. Interleavings are decided at inserted yield points only. Known findings recognised by signature (two-phase close via a relaxed specification; compiled-entry deletion via error text + history condition; an importer whose start function failed pins the exporter's allocator memory). Sequential classes: context-close, registry-large (hundreds of names), resources (files released exactly once on every way of closing, with failing closes).",
-  "deterministic simulation: seeded baton scheduler over instrumented real code, linearizability checking of recorded histories (porcupine), schedule shrinking + replay",
+  "Trusted: the go/ast instrumenter and shims (forwarding outside the simulation), the registry specification (about 120 lines), porcupine v1.3.0. Interleavings are decided at inserted yield points only. Known findings recognised by signature (two-phase close via a relaxed specification; compiled-entry deletion via error text + history condition; an importer whose start function failed pins the exporter's allocator memory). Class async-close-concurrent: several calls in flight on one module under close-on-context-done, interleaved statement by statement (watcher goroutines are tasks: their select is polled). Lock-discipline assertions inserted for the fields documented as guarded (store registry, engine tables) are reported as violations. Sequential classes: context-close, registry-large (hundreds of names), resources (files released exactly once on every way of closing, with failing closes and large sparse descriptor tables).",
+  "deterministic simulation: seeded baton scheduler over instrumented real code, linearizability checking of recorded histories (porcupine), lock-discipline assertions under the scheduler, schedule shrinking + replay",
   "DESIGN.md §5 C10")
 
 claim("C11", "exploration",
-  "Seeded simulation of 2-4 unlinked instances (same compiled plan and a second plan; one runtime or two runtimes sharing a compilation cache), each with its own stdout, mount and arguments; calls are tasks suspended at host calls so that an instance sits mid-call with native frames live while others mutate memory, globals, tables, dropped segments, descriptors and stdout; per instance the outcome sequence, stdout bytes, descriptor numbers, created files and final state must equal the same calls on a lone instance in a fresh runtime (wazero against wazero, same engine). Class emscripten-shared-env: instances sharing one Emscripten env host module whose invoke_* functions call back into the calling instance, against a per-instance model. Sampling of programs and interleavings.",
+  "Seeded simulation of 2-4 unlinked instances (same compiled plan and a second plan; one runtime or two runtimes sharing a compilation cache), each with its own stdout, mount and arguments; calls are tasks suspended at host calls so that an instance sits mid-call with native frames live while others mutate memory, globals, tables, dropped segments, descriptors and stdout; per instance the outcome sequence, stdout bytes, descriptor numbers, created files and final state must equal the same calls on a lone instance in a fresh runtime (wazero against wazero, same engine). Class one-config-value: every instance from ONE ModuleConfig value (default clocks and random source). Class emscripten-shared-env: instances sharing one Emscripten env host module whose invoke_* functions call back into the calling instance, against a per-instance model. Sampling of programs and interleavings.",
   "Trusted: the comparison harness; the host function's return value is a pure function of its arguments and the instance's own call count.",
   "deterministic simulation: tape-scheduled interleaving of suspended calls across instances vs lone-instance replay of the same call sequence",
   "DESIGN.md §5 C11")
